@@ -2,7 +2,7 @@
 # C06 — `\uXXXX`, `\UXXXXXX` and surrogate-pair escapes in string literals
 
 Model of `Lexer::consume_unicode_literal` / `Lexer::consume_unicode`
-(`feel-parser/src/lexer.rs:772-856`): the hexadecimal digits are weighted into a value, the
+(`feel-parser/src/lexer.rs:778-862`): the hexadecimal digits are weighted into a value, the
 value is packed into UTF-8 bytes by shifts and masks, and `String::from_utf8` turns the bytes
 back into a character.  `utf8Decode` is the specification of that last step for byte
 vectors holding one character (the definition of UTF-8, RFC 3629 §3: shortest form only,
@@ -23,12 +23,12 @@ def spell4 (c : Nat) : List Nat := [c / 4096 % 16, c / 256 % 16, c / 16 % 16, c 
 def spell6 (c : Nat) : List Nat :=
   [c / 1048576 % 16, c / 65536 % 16, c / 4096 % 16, c / 256 % 16, c / 16 % 16, c % 16]
 
-/-- lexer.rs:780-783: `value += 4096*d; value += 256*d; value += 16*d; value += d`. -/
+/-- lexer.rs:786-789: `value += 4096*d; value += 256*d; value += 16*d; value += d`. -/
 def value4 : List Nat → Option Nat
   | [d1, d2, d3, d4] => some (4096 * d1 + 256 * d2 + 16 * d3 + d4)
   | _ => none
 
-/-- lexer.rs:776-783, the `U` form: two more digits weighted 1048576 and 65536. -/
+/-- lexer.rs:782-789, the `U` form: two more digits weighted 1048576 and 65536. -/
 def value6 : List Nat → Option Nat
   | [d1, d2, d3, d4, d5, d6] => some (1048576 * d1 + 65536 * d2 + (4096 * d3 + 256 * d4 + 16 * d5 + d6))
   | _ => none
@@ -55,7 +55,7 @@ def utf8Decode : List Nat → Option Nat
 
 /-! ## The packing of `consume_unicode` -/
 
-/-- lexer.rs:792-832: the four branches that pack one literal value (`value >>= 6` between
+/-- lexer.rs:798-838: the four branches that pack one literal value (`value >>= 6` between
 the bytes is written here as the accumulated shift).  `none`: a surrogate or a value above
 0x10FFFF (handled by the caller). -/
 def packOne (v : Nat) : Option (List Nat) :=
@@ -68,14 +68,14 @@ def packOne (v : Nat) : Option (List Nat) :=
           ((v >>> 6) &&& 0x3F) ||| 0x80, (v &&& 0x3F) ||| 0x80]
   else none
 
-/-- lexer.rs:838-845: the surrogate branch: the code point of the pair, packed like the
+/-- lexer.rs:844-851: the surrogate branch: the code point of the pair, packed like the
 four-byte branch. -/
 def packSur (hi lo : Nat) : List Nat :=
   let cp := 0x10000 + ((hi - 0xD800) * 0x400) + (lo - 0xDC00)
   [((cp >>> 18) &&& 0x7) ||| 0xF0, ((cp >>> 12) &&& 0x3F) ||| 0x80,
    ((cp >>> 6) &&& 0x3F) ||| 0x80, (cp &&& 0x3F) ||| 0x80]
 
-/-- lexer.rs:790-856: the character denoted by a literal of value `v` (followed, when `v`
+/-- lexer.rs:796-862: the character denoted by a literal of value `v` (followed, when `v`
 is a high surrogate, by a second literal of value `next`); `none` = a lexer error. -/
 def consumeUnicode (v : Nat) (next : Option Nat) : Option Nat :=
   if 0xD800 ≤ v && v ≤ 0xDBFF then
